@@ -406,6 +406,11 @@ wrapped_interval<Number>::mk_winterval(Number lb, Number ub,
     CRAB_WARN(ub,
               " does not fit into a wrapint. Returned top wrapped interval");
     return wrapped_interval<Number>::top();
+  } else if (ub - lb >=
+             Number(wrapint::get_unsigned_max(width).get_unsigned_bignum())) {
+    // [lb, ub] has at least 2^width numbers: all the bit patterns. The
+    // interval between the bounds modulo 2^width would miss most of them.
+    return wrapped_interval<Number>::top();
   } else {
     return wrapped_interval<Number>(wrapint(lb, width), wrapint(ub, width));
   }
